@@ -112,6 +112,45 @@ func checkC05(c *Ctx) {
 			c.Sample(map[string]interface{}{"source": srcs[i], "optimized": r1.Out, "unoptimized": r2.Out})
 		}
 	}
+	// whole files: scripts next to mapscripts with inline scripts, texts, movements, marts, raw blocks, inline data
+	nfiles := 150
+	if !c.Quick() {
+		nfiles = 3000
+	}
+	fr := NewRand(c.Seed*6367 + 55)
+	ffc := FileCfg{MaxTops: 4, Inline: true, AutoInline: true, MapScripts: true, Raw: true,
+		Ctl: GenCfg{MaxDepth: 3, MaxStmts: 3, MaxLeaves: 3, Auto: true, Switches: true, Gotos: false}}
+	for i := 0; i < nfiles; i++ {
+		f, av := GenFile(fr, ffc, fmt.Sprint("_", i))
+		src, _ := RenderFile(f, Style{R: fr, Layout: i % 3})
+		o1 := Opts{Optimize: true, AutoVar: av}
+		o2 := o1
+		o2.Optimize = false
+		r1, r2 := Compile(src, o1), Compile(src, o2)
+		if r1.Panic != "" || r2.Panic != "" || (r1.Err == nil) != (r2.Err == nil) {
+			c.Violate(Violation{What: "file accepted with one optimize setting and rejected (or crashing) with the other", Source: src, Opts: &o1,
+				Detail: map[string]interface{}{"err_opt": fmt.Sprint(r1.Err), "err_noopt": fmt.Sprint(r2.Err), "panic": r1.Panic + r2.Panic}})
+			continue
+		}
+		if r1.Err != nil {
+			rejected++
+			continue
+		}
+		id := fmt.Sprintf("file%d", i)
+		names, bodies := InlineScripts(f)
+		vc := &VVCase{ID: id, Src: src, Opts: o1, Out1: r1.Out, Out2: r2.Out, Scripts: names}
+		for k := range names {
+			vc.Entries = append(vc.Entries, [2]string{names[k], names[k]})
+			for _, l := range UserLabels(bodies[k]) {
+				vc.ULabels = append(vc.ULabels, l)
+				vc.Entries = append(vc.Entries, [2]string{l, l})
+			}
+		}
+		if len(vc.Entries) > 0 {
+			vv = append(vv, vc)
+		}
+		st = append(st, fileStaticCase(id+".o1", f, src, o1, r1.Out), fileStaticCase(id+".o0", f, src, o2, r2.Out))
+	}
 	vs := RunVV(c, vv, 3000, "optimized and unoptimized outputs behave differently or define different data/labels", true)
 	sr := RunStatic(c, st, false)
 	byID := map[string]*StaticCase{}
@@ -166,6 +205,28 @@ func checkC04(c *Ctx) {
 				c.Sample(map[string]interface{}{"source": srcs[i], "output": r.Out})
 			}
 		}
+	}
+	nfiles := 200
+	if !c.Quick() {
+		nfiles = 4000
+	}
+	fr := NewRand(c.Seed*7877 + 44)
+	ffc := FileCfg{MaxTops: 4, Inline: true, AutoInline: true, MapScripts: true, Raw: true,
+		Ctl: GenCfg{MaxDepth: 3, MaxStmts: 3, MaxLeaves: 3, Auto: true, Switches: true, Gotos: true}}
+	for i := 0; i < nfiles; i++ {
+		f, av := GenFile(fr, ffc, fmt.Sprint("_", i))
+		src, _ := RenderFile(f, Style{R: fr, Layout: i % 3})
+		o := Opts{Optimize: i%2 == 0, AutoVar: av}
+		r := Compile(src, o)
+		if r.Panic != "" || r.TimedOut {
+			c.Violate(Violation{What: "compiler panicked or hung on a well-formed file", Source: src, Opts: &o})
+			continue
+		}
+		if r.Err != nil {
+			rejected++
+			continue
+		}
+		st = append(st, fileStaticCase(fmt.Sprintf("file%d", i), f, src, o, r.Out))
 	}
 	c04Report(c, st, RunStatic(c, st, true))
 	c.Cov("programs", int64(len(progs)))
